@@ -70,8 +70,8 @@ Step(bus0, f, draws) ==
            [bus |-> Upd(LAMBDA k, g : [g EXCEPT !.init = "DISABLED"]), resp |-> Silent]
       [] name = "102.Initialise" ->
            [bus |-> Upd(LAMBDA k, g :
-                      IF g.init = "DISABLED" /\ (lb = 0 \/ (lb = 255 /\ g.short = MASK)
-                                                 \/ (lb < 128 /\ lb % 2 = 1 /\ g.short = lb \div 2))
+                      \* every selected unit becomes ENABLED, also one that had been WITHDRAWN (11.7.2)
+                      IF (lb = 0 \/ (lb = 255 /\ g.short = MASK) \/ (lb < 128 /\ lb % 2 = 1 /\ g.short = lb \div 2))
                       THEN [g EXCEPT !.init = "ENABLED"] ELSE g),
             resp |-> Silent]
       [] name = "102.Randomise" ->
